@@ -51,11 +51,11 @@ PROPS.update({
         trusted_base=["modelled, not verified: ExactSizeIterator::len of the item iterator is the item count n (a usize); the items' encodings concatenate to p (each item is encoded by its own Encode impl - C01); Vec::copy_from_slice panics on a length mismatch (modelled as APanic, proved unreachable)"],
         assumptions=["the model Append.v transcribes append_or_new_impl branch by branch (in-place prefix rewrite / reallocation); agreement is sampled on every run, the theorems are unbounded"]),
     "C01": _gen("c01", True),
-    "C02": _gen("c02", False, ["bit sequences (TBits) are outside the round-trip theorem (nobits hypothesis); they are covered by the correspondence and the implementation-side oracle only", "RangeInclusive's exhausted flag is not part of the model value (known finding F5)"]),
-    "C03": _gen("c03", True, ["native stack exhaustion of plain decode on recursive user types is outside the model (known finding F7)"]),
+    "C02": _gen("c02", False, ["RangeInclusive's exhausted flag is not part of the model value: the implementation-side oracle exhibits it on every run (known finding F5)"]),
+    "C03": _gen("c03", True, ["recursive user types are modelled by Rec.rdec with a recursion budget (NoFuel = native stack exhaustion); plain decode exhausting the stack is exhibited on every run in a child process (known finding F7)"]),
     "C07": _gen("c07", False),
     "C08": _gen("c08", False),
-    "C11": _gen("c11", False, ["native stack usage is a runtime behaviour the model cannot exhibit; the theorem bounds the nesting of descend/ascend by the limit"]),
+    "C11": _gen("c11", False, ["native stack usage is modelled as a recursion budget of frames (Rec.rdec); the size of a frame is a runtime quantity: the harness runs 10^5..10^6-deep input on a 256 KiB stack in a child process"]),
     "C12": _gen("c12", False),
     "C14": _gen("c14", False),
     "C19": _gen("c19", False),
